@@ -24,6 +24,7 @@ RULE = (
     "reference for wrapping, fit == forward bitwise, composite == manual composition of the public part classes. "
     "Non-trivial = a point with min(u,1-u)<0.01 OR |lower|/width>100 OR a composite with >=2 active parts."
 )
+RULE += " " + ('Composite columns may be bounded on one side only (they must be left untouched); affine data scales down to 1e-8.')
 ASSUMPTIONS = [
     "round-trip tolerance 64*eps*(|lower|+|upper|+width) per coordinate, nothing but finiteness asserted inside the clipping margin",
     "log-Jacobian tolerance per coordinate: logit 8*eps/min(u,1-u)+8*eps*(|log u|+|log(1-u)|+|log width|+1); probit "
